@@ -336,6 +336,35 @@ func runC07(e *Env) {
 			fcases = append(fcases, c)
 		}
 	}
+	// the first instance may be a rest: the flags still replace its settings (glue in package main: real binary only)
+	nChordFirst := len(fcases)
+	for fs := 1; fs < 16; fs++ {
+		var fl refplay.Flags
+		if fs&1 != 0 {
+			fl.BPM = up(77)
+		}
+		if fs&2 != 0 {
+			fl.Meter = &flagMeter
+		}
+		if fs&4 != 0 {
+			fl.Key = &flagKey
+		}
+		if fs&8 != 0 {
+			fl.Vel = &flagVel
+		}
+		for d := 0; d < 4; d++ {
+			var s0, s1 [7]bool
+			if d&1 != 0 {
+				s0 = [7]bool{true, true, true, true}
+			}
+			if d&2 != 0 {
+				s1 = [7]bool{true, true, true, true}
+			}
+			c := playCase{Path: "cli", Cfg: writeCfg{Flags: fl}}
+			c.Insts = []refplay.Inst{c07Inst(0, true, s0), c07Inst(1, d&2 != 0 && d&1 != 0, s1), c07Inst(2, false, [7]bool{})}
+			fcases = append(fcases, c)
+		}
+	}
 	step := 1
 	if !e.Thorough {
 		step = 4 // quick: every 4th document for each flag subset through the CLI, all in-process
@@ -345,13 +374,13 @@ func runC07(e *Env) {
 		lc := c
 		lc.Path = "lib"
 		c07Eval(e, m, &lc, true)
-		if i%step == 0 {
+		if i%step == 0 || i >= nChordFirst {
 			c07Eval(e, m, &c, true)
 		}
 		e.R.Trace(1)
 		e.R.NonTrivial("flags" + fmt.Sprint(i))
 	})
-	e.R.AddPart(ev.Part{Name: "flags-x-documents", Enumerated: fmt.Sprintf("16 subsets of {--bpm,--meter,--key,--velocity} x 256 documents (each of the 4 settings present/absent on instance 0 and on instance 1): in-process all 4096, real binary every %d-th", step), Executions: int64(len(fcases)), Exhaustive: true})
+	e.R.AddPart(ev.Part{Name: "flags-x-documents", Enumerated: fmt.Sprintf("16 subsets of {--bpm,--meter,--key,--velocity} x 256 documents (each of the 4 settings present/absent on instance 0 and on instance 1): in-process all 4096, real binary every %d-th; plus 15 non-empty flag subsets x 4 documents whose first instance is a rest (real binary, all)", step), Executions: int64(len(fcases)), Exhaustive: true})
 
 	c07ArgsGraph(e)
 	var ks []string
